@@ -324,7 +324,13 @@ func judge(out *pipe.Outcome, ix *pipe.Index) pipe.Verdict {
 		if last != nil && final != "Running" && final != "Recovering" {
 			add("status-disagrees-with-live-run", fmt.Sprintf("at the end a run is live (source session opened at %d) but the stored status is %s", last.open, final), last.open)
 		}
-		if last == nil && final == "Running" {
+		anyOpen := false // a session that was opened and not torn down, whether or not it carried records yet
+		for _, s := range sessions[src0] {
+			if s.tear < 0 {
+				anyOpen = true
+			}
+		}
+		if last == nil && !anyOpen && final == "Running" {
 			add("status-running-without-live-run", "at the end the stored status is Running but no run is live")
 		}
 	}
